@@ -4,6 +4,7 @@ import itertools
 from hypothesis import strategies as st
 
 from vlib.core import call_twice, Part, Violation, call, canonical, watchdog
+from vlib import forms
 from vlib.models import TableGrader
 from vlib.oracles import best_assignments
 
@@ -95,7 +96,7 @@ def build(g, answers=None):
         kw['grouping'] = list(g['grouping'])
     if answers is not None:
         kw['answers'] = to_answer(answers)
-    return ListGrader(**kw)
+    return forms.make(ListGrader, kw)
 
 
 # ----------------------------------------------------------------------------------------------------
